@@ -108,10 +108,12 @@ pub fn signed_le(b: &[u8]) -> (bool, Vec<u8>) {
 macro_rules! binop {
     ($name:ident, $op:tt, $opa:tt) => {
         fn $name(a: Self, b: Self, v: u32) -> Self {
-            match v & 3 {
+            match v % 6 {
                 0 => a $op b,
                 1 => &a $op &b,
                 2 => a $op &b,
+                3 => &a $op b,
+                4 => { let mut r = a; r $opa &b; r }
                 _ => { let mut r = a; r $opa b; r }
             }
         }
@@ -125,8 +127,9 @@ macro_rules! common_ops {
         binop!(mul, *, *=);
         binop!(div, /, /=);
         fn neg(a: Self, v: u32) -> Self {
-            match v & 1 {
+            match v % 3 {
                 0 => -a,
+                1 => -&a,
                 _ => { let mut r = a; r.set_neg(); r }
             }
         }
